@@ -304,3 +304,27 @@ Definition sexp_of_event (e : event) : sexp :=
 
 Definition sexp_of_result (r : result) : sexp :=
   tagged "res" [sexp_of_outcome sexp_of_value (fst r); tagged "log" (map sexp_of_event (snd r))].
+
+(** Printing expressions (same form the harness dumps the real AST in). *)
+Fixpoint sexp_of_expr (e : expr) : sexp :=
+  match e with
+  | EUnspec => Atom "unspec"
+  | ELit v => tagged "lit" [sexp_of_value v]
+  | EIdent x => tagged "id" (sexp_of_str x)
+  | ECall f t args =>
+      tagged "call" (tagged "str" (sexp_of_str f) ::
+                     match t with
+                     | None => Atom "none"
+                     | Some t' => SList [Atom "some"; sexp_of_expr t']
+                     end :: map sexp_of_expr args)
+  | ESelect o f t =>
+      tagged "sel" [sexp_of_expr o; tagged "str" (sexp_of_str f); Atom (if t then "true" else "false")]
+  | EList es => tagged "list" (map sexp_of_expr es)
+  | EMap es => tagged "map" (map (fun kv => SList [sexp_of_expr (fst kv); sexp_of_expr (snd kv)]) es)
+  | EStruct n fs =>
+      tagged "struct" (tagged "str" (sexp_of_str n) ::
+                       map (fun fv => SList [tagged "str" (sexp_of_str (fst fv)); sexp_of_expr (snd fv)]) fs)
+  | EComp r iv av i c s res =>
+      tagged "comp" [sexp_of_expr r; tagged "str" (sexp_of_str iv); tagged "str" (sexp_of_str av);
+                     sexp_of_expr i; sexp_of_expr c; sexp_of_expr s; sexp_of_expr res]
+  end.
